@@ -17,9 +17,33 @@ Lemma bridge_trig_update_size v n o : trig_update_size v n o = v + rsize n - rsi
 Proof. reflexivity. Qed.
 
 (* ---------------- closure under the primitives ---------------- *)
+(* every UPDATE of core.py leaves rowid, key and raw alone *)
+Definition keeps_id (f : row -> row) : Prop :=
+  forall r, rowid (f r) = rowid r /\ rkey (f r) = rkey r /\ rraw (f r) = rraw r.
+
+Lemma bridge_row_update_keeps_id a b c d e f g h i j : keeps_id (row_update_set a b c d e f g h i j).
+Proof. intros r. repeat split. Qed.
+Lemma bridge_touch_update_keeps_id a b : keeps_id (touch_update_set a b).
+Proof. intros r. repeat split. Qed.
+Lemma bridge_incr_update_keeps_id p now v rid : keeps_id (incr_update p now v rid).
+Proof.
+  intros r. unfold incr_update. destruct p;
+    repeat match goal with |- context[if ?b then _ else _] => destruct b end; repeat split.
+Qed.
+Lemma bridge_policy_get_update_keeps_id p now rid : keeps_id (policy_get_update p now rid).
+Proof.
+  intros r. unfold policy_get_update. destruct p;
+    repeat match goal with |- context[if ?b then _ else _] => destruct b end; repeat split.
+Qed.
+
+(* every INSERT gives the new row the rowid the table hands it *)
+Definition inserts_at (mk : Z -> row) : Prop := forall n, rowid (mk n) = n.
+Lemma bridge_columns_insert_at dbk raw now e tag sd fid : inserts_at (columns_insert dbk raw now e tag sd fid).
+Proof. intros n. reflexivity. Qed.
+
 Record prim_closed (P : st -> Prop) : Prop := {
-  pc_insert : forall mk s, P s -> P (t_insert mk s);
-  pc_update : forall wh f s, P s -> P (t_update wh f s);
+  pc_insert : forall mk s, inserts_at mk -> P s -> P (t_insert mk s);
+  pc_update : forall wh f s, keeps_id f -> P s -> P (t_update wh f s);
   pc_delete : forall wh s, P s -> P (t_delete wh s);
   pc_fs : forall s f n, P s -> P (set_fs s f n);
   pc_stats : forall s h m b, P s -> P (set_stats s h m b)
@@ -54,7 +78,7 @@ Section Closed.
   Qed.
 
   Lemma closed_columns_update rid now e tag sd fid s : P s -> P (columns_update rid now e tag sd fid s).
-  Proof. apply (pc_update P HP). Qed.
+  Proof. apply (pc_update P HP), bridge_row_update_keeps_id. Qed.
 
   Ltac dcull := cbv zeta; match goal with |- context[cull ?c ?now ?pg ?x] =>
       let s3 := fresh "s3" in let cl2 := fresh "cl2" in let C := fresh "C" in
@@ -62,7 +86,10 @@ Section Closed.
       apply closed_fs_remove; change s3 with (fst (s3, cl2)); rewrite <- C end.
 
   Ltac fin := first [assumption | apply closed_fs_remove | apply closed_cull | apply closed_columns_update
-                     | apply (pc_insert P HP) | apply (pc_update P HP) | apply (pc_delete P HP)
+                     | apply (pc_insert P HP); [apply bridge_columns_insert_at|]
+                     | apply (pc_update P HP); [first [apply bridge_touch_update_keeps_id | apply bridge_incr_update_keeps_id
+                                                       | apply bridge_policy_get_update_keeps_id | apply bridge_row_update_keeps_id]|]
+                     | apply (pc_delete P HP)
                      | apply closed_bump | apply (pc_stats P HP)].
 
   Lemma closed_set c s k v rd e tag now pg : P s -> P (fst (op_set c s k v rd e tag now pg)).
@@ -269,9 +296,9 @@ Qed.
 Lemma counters_closed : prim_closed counters_ok.
 Proof.
   split.
-  - intros mk s [C S]. unfold t_insert, counters_ok; cbn.
+  - intros mk s _ [C S]. unfold t_insert, counters_ok; cbn.
     rewrite bridge_trig_insert_count, bridge_trig_insert_size, app_length, map_app, sumZ_app. cbn. split; lia.
-  - intros wh f s [C S]. unfold t_update, counters_ok.
+  - intros wh f s _ [C S]. unfold t_update, counters_ok.
     pose proof (upd_rows_spec wh f (rows s) (n_size s)) as U.
     destruct (upd_rows wh f (rows s) (n_size s)) as [t' sz']. destruct U as [L E]. cbn. split; lia.
   - intros wh s [C S]. unfold t_delete, counters_ok.
